@@ -27,23 +27,27 @@ def has_body(n):
     return any(c.get("kind") == "CompoundStmt" for c in n.get("inner", []))
 
 
-def find_defs(objs, last, sig=None):
-    """function definitions named `last` among the top-level nodes (and template instantiations inside them)"""
+def find_defs(objs, last, sig=None, targs=None):
+    """function definitions named `last` among the top-level nodes (and template instantiations inside them);
+    targs: required template arguments of the enclosing class template specialization, e.g. 'int' or 'int,double'"""
     found = []
 
-    def visit(n, depth):
+    def visit(n, depth, ctx):
         k = n.get("kind")
         if k in FUNC_KINDS and n.get("name") == last and has_body(n):
-            if sig is None or sig in n.get("type", {}).get("qualType", ""):
+            if (sig is None or sig in n.get("type", {}).get("qualType", "")) and (targs is None or targs == ctx):
                 found.append(n)
+        if k == "ClassTemplateSpecializationDecl":
+            ctx = ",".join((c.get("type") or {}).get("qualType", c.get("value", "?")) for c in n.get("inner", [])
+                           if isinstance(c, dict) and c.get("kind") == "TemplateArgument")
         if k in ("FunctionTemplateDecl", "ClassTemplateDecl", "CXXRecordDecl", "ClassTemplateSpecializationDecl",
                  "NamespaceDecl", "LinkageSpecDecl") and depth < 4:
             for c in n.get("inner", []):
                 if isinstance(c, dict):
-                    visit(c, depth + 1)
+                    visit(c, depth + 1, ctx)
 
     for o in objs:
-        visit(o, 0)
+        visit(o, 0, None)
     return found
 
 
@@ -169,16 +173,18 @@ def translate(cfg, outdir):
     em.lifted_new = set()
     units = cfg["units"]
 
-    def fetch(u):
-        return astq.query(u["tu"], u["name"])
-
+    # optional per-unit key "filter": the substring handed to clang's -ast-dump-filter (default: the unit's name).
+    # Units of one TU that share a filter (e.g. "xbt_dynar") are read from ONE clang run; the unit's definition is
+    # still selected by its exact name below.
+    keys = sorted(set((u["tu"], u.get("filter", u["name"])) for u in units))
     with ThreadPoolExecutor(max_workers=int(os.environ.get("VF_JOBS", "8"))) as ex:
-        asts = list(ex.map(fetch, units))
+        fetched = dict(zip(keys, ex.map(lambda k: astq.query(k[0], k[1]), keys)))
+    asts = [fetched[(u["tu"], u.get("filter", u["name"]))] for u in units]
     texts, meta = [], []
 
     def emit_unit(u, objs, accessor_only=False):
         last = u["name"].split("::")[-1]
-        defs = find_defs(objs, last, u.get("sig"))
+        defs = find_defs(objs, last, u.get("sig"), u.get("targs"))
         if accessor_only:
             defs = [d for d in defs if is_accessor(d)]
             if len(defs) != 1:
@@ -197,7 +203,26 @@ def translate(cfg, outdir):
                                             "CXXConversionDecl"):
             parts = u["name"].split("::")
             cls = tm.struct_tag(parts[-2])
-        static = node.get("storageClass") == "static"
+        static = node.get("storageClass") == "static" or any(
+            o.get("kind") == "CXXMethodDecl" and o.get("storageClass") == "static" and o.get("name") == node.get("name") and
+            o.get("mangledName") == node.get("mangledName") for o in objs)  # `static` is written on the in-class declaration only
+        if not static and node.get("previousDecl"):
+            # out-of-line definition of a static member function: `static` is only on the in-class declaration
+            def decl_of(n, want, depth=0):
+                if n.get("id") == want:
+                    return n
+                if depth < 6:
+                    for c in n.get("inner", []):
+                        if isinstance(c, dict) and c.get("kind", "").endswith("Decl"):
+                            r = decl_of(c, want, depth + 1)
+                            if r is not None:
+                                return r
+                return None
+            for o in objs:
+                prev = decl_of(o, node["previousDecl"])
+                if prev is not None:
+                    static = prev.get("storageClass") == "static"
+                    break
         if node["kind"] == "CXXConstructorDecl":
             cname = u.get("cname") or em.fn_cname(cls, "ctor", node["type"]["qualType"])
         else:
@@ -269,15 +294,31 @@ def translate(cfg, outdir):
                 init = [x for x in o["inner"] if x.get("kind") != "FullComment"][-1]
                 if const_literal_expr(init):
                     const_init[cn] = em.E(init)
+    for lu in em.lifted_units:  # lifted lambdas / per-call-site algorithm models: may carry contracts like units
+        meta.append({"unit": "%s of %s" % (lu["kind"], lu["of"]), "cname": lu["cname"], "tu": None, "loops": lu["loops"],
+                     "lifted": True})
     # extra fields requested by the spec (ghost fields or fields used only by predicates)
     for tag, fields in cfg.get("extra_fields", {}).items():
         for f, ct in fields.items():
             em.field(tag, f, ct)
     for tag in cfg.get("extra_structs", []):
         em.structs.setdefault(tag, {})
+    # boost::intrusive lists: the element class carries the member hook the list model flips
+    for tag, (ect, hook) in list(tm.ilist_insts.items()):
+        em.field(ect[len("struct "):], hook, "struct vf_ihook")
     for d, bs in cfg.get("extra_bases", {}).items():
         for b in bs:
             em.add_base(d, b)
+
+    # ---- pointer conversions emitted as casts: the base must sit at offset 0 (chain of first bases)
+    for d, b in sorted(em.upcasts):
+        cur, seen = d, set()
+        while cur != b and em.bases.get(cur) and cur not in seen:
+            seen.add(cur)
+            cur = em.bases[cur][0]
+        if cur != b:
+            raise ExtractionError("conversion %s* -> %s*: %s is not known as a first base of %s (add extra_bases)" %
+                                  (d, b, b, d))
 
     # ---- enum constants
     enum_defs = []
@@ -334,8 +375,12 @@ def translate(cfg, outdir):
             defs[tag] = ("struct %s { char __opaque; };\n" % tag, [])
     h += topo(defs)
     h += enum_defs
+    for an, (ect, cnt) in sorted(tm.carr_insts.items()):
+        h.append("typedef %s %s[%s];" % (ect, an, cnt))
     for n, v in sorted(eval_constants(cfg, em.const_needed, outdir).items()):
-        h.append("#define VFC_%s (%d) /* %s, evaluated by g++ */" % (ident(n), v, cfg["const_globals"][n]["expr"]))
+        ct = em.const_types.get(n)
+        lit = "((%s)%d)" % (ct, v) if ct and ct != "int" and not ct.startswith("struct") and "*" not in ct else "(%d)" % v
+        h.append("#define VFC_%s %s /* %s, evaluated by g++ */" % (ident(n), lit, cfg["const_globals"][n]["expr"]))
     for i, k in enumerate(sorted(em.exc_kinds)):
         h.append("#define %s (%d)" % (k, 2 + i))
     h.append(models.gen_funcs(tm, lib))
@@ -387,6 +432,7 @@ def translate(cfg, outdir):
             "dropped": {k: em.dropped.count(k) for k in set(em.dropped)},
             "models": {"seq": tm.seq_insts, "pair": {k: list(v) for k, v in tm.pair_insts.items()},
                        "opt": tm.opt_insts, "set": tm.set_insts,
+                       "ilist": {k: list(v) for k, v in tm.ilist_insts.items()},
                        "map": {k: list(v) for k, v in tm.map_insts.items()}},
             "exceptions": sorted(em.exc_kinds)}
     with open(os.path.join(outdir, "gen.json"), "w") as f:
